@@ -377,7 +377,7 @@ def judgeLine (line : String) : Option (String × Verdict) :=
     | none => some (key, .bad "malformed: k")
     | some k =>
       if query == "normal_pair" then some (key, judgePair fmt ps obs)
-      else if query == "nattr_hf" then
+      else if query == "nattr_hf" || query == "nattr_hfc" then
         (match ps with
          | [f] => some (key, judge fmt fmt (.vals (smul f 1 ++ smul f (-1))) obs)
          | _ => some (key, .bad "malformed: nattr_hf"))
